@@ -95,6 +95,7 @@ func (e editSpec) apply(b []byte) []byte {
 }
 
 type fileSpec struct {
+	Prefix string     `json:"prefix,omitempty"` // bytes in front of everything else
 	Repeat int        `json:"repeat,omitempty"` // the parts are repeated this many times
 	Parts  []string   `json:"parts,omitempty"`  // corpus member names, concatenated
 	Text   string     `json:"text,omitempty"`
@@ -111,6 +112,9 @@ func (f fileSpec) bytes() []byte {
 		b = bytes.Repeat(b, f.Repeat)
 	}
 	b = append(b, f.Text...)
+	if f.Prefix != "" {
+		b = append([]byte(f.Prefix), b...)
+	}
 	if f.B64 != "" {
 		d, _ := base64.StdEncoding.DecodeString(f.B64)
 		b = append(b, d...)
@@ -127,12 +131,16 @@ type cliEnv struct {
 }
 
 type runStep struct {
-	Argv      []string         `json:"argv"`
-	Stdin     string           `json:"stdin,omitempty"` // user file piped to stdin; "" = stdin is a tty
-	Chunks    []int            `json:"chunks,omitempty"`
-	SinkLimit *int             `json:"sink_limit,omitempty"`
-	Faults    []simos.Fault    `json:"faults,omitempty"`
-	PowerLoss *simos.PowerLoss `json:"powerloss,omitempty"`
+	Argv  []string `json:"argv"`
+	Stdin string   `json:"stdin,omitempty"` // user file piped to stdin; "" = stdin is a tty
+	// StdinFile: stdin is not a pipe but a descriptor on the file itself
+	// (gts < file), positioned at StdinOffset.
+	StdinFile   bool             `json:"stdin_file,omitempty"`
+	StdinOffset int              `json:"stdin_offset,omitempty"`
+	Chunks      []int            `json:"chunks,omitempty"`
+	SinkLimit   *int             `json:"sink_limit,omitempty"`
+	Faults      []simos.Fault    `json:"faults,omitempty"`
+	PowerLoss   *simos.PowerLoss `json:"powerloss,omitempty"`
 }
 
 type diskStep struct {
@@ -303,7 +311,7 @@ func withNoCache(argv []string) []string {
 // pristine machine holding the same user files.
 func (x *cliExec) reference(rs *runStep, files map[string][]byte, stdin []byte) obs {
 	h := sha256.New()
-	fmt.Fprintf(h, "%q|%s|%v|", rs.Argv, rs.Stdin, rs.Chunks)
+	fmt.Fprintf(h, "%q|%s|%v|%v|%d|", rs.Argv, rs.Stdin, rs.Chunks, rs.StdinFile, rs.StdinOffset)
 	if rs.SinkLimit != nil {
 		fmt.Fprintf(h, "sink=%d|", *rs.SinkLimit)
 	}
@@ -329,6 +337,9 @@ func (x *cliExec) reference(rs *runStep, files map[string][]byte, stdin []byte) 
 		// how a pipe chunks the data is not something a user controls, so it
 		// must not show in the output either.
 		spec.Stdin.Chunks = altChunks(rs.Chunks)
+		if rs.StdinFile {
+			spec.Stdin.File, spec.Stdin.Offset = rs.Stdin, int64(rs.StdinOffset)
+		}
 	}
 	r := runGts(w, withNoCache(rs.Argv), spec)
 	o := obs{Status: r.Status, Stdout: r.Stdout, Files: userFiles(w), Panic: r.Panic}
@@ -448,6 +459,9 @@ func (x *cliExec) runStep(i int, rs *runStep) {
 	} else {
 		spec.Stdin.Data = stdin
 		spec.Stdin.Chunks = rs.Chunks
+		if rs.StdinFile {
+			spec.Stdin.File, spec.Stdin.Offset = rs.Stdin, int64(rs.StdinOffset)
+		}
 	}
 	core.Current = x.sc
 	core.Tick()
@@ -803,6 +817,11 @@ func cliCandidates(sc *cliScenario) []*cliScenario {
 		if st.Run.SinkLimit != nil {
 			c := sc.clone()
 			c.Steps[i].Run.SinkLimit = nil
+			out = append(out, c)
+		}
+		if st.Run.StdinFile && st.Run.StdinOffset == 0 {
+			c := sc.clone()
+			c.Steps[i].Run.StdinFile = false
 			out = append(out, c)
 		}
 		// drop one option token (switches only: a token starting with - whose successor also starts with - or is last-but-input)
